@@ -818,7 +818,7 @@ func (env *SpecEnv) call(x *ast.CallExpr) tv {
 		case sInt:
 			if a.Ty != nil {
 				if _, ok := a.Ty.Underlying().(*types.Map); ok {
-					return tv{T: sel(ex.mapLComp(env.heap), a.T), Ty: types.Typ[types.Int]}
+					return tv{T: ite(eq(a.T, tNull), bv64(0), sel(ex.mapLComp(env.heap), a.T)), Ty: types.Typ[types.Int]}
 				}
 			}
 		}
